@@ -24,6 +24,7 @@ KINDS = {
     'g': ('Parameter', False, {'per_instance': False}),
     'n': ('Number', False, {'bounds': (0, 10)}),
     'sel': ('Selector', False, {}),
+    'esel': ('Selector', False, {}),
     'r': ('Parameter', False, {'readonly': True}),
 }
 SEL_OBJECTS = ['o1', 'o2', 'o3']
@@ -94,7 +95,7 @@ class ClassWorld:
         big = tier == 'thorough'
         shape = weighted(rng, [('single', 1), ('chain2', 3), ('chain3', 2), ('fork', 1.5), ('diamond', 2)])
         bases = SHAPES[shape]
-        pool = ['v', 'l', 's', 'k', 'g', 'n', 'sel'] + (['r'] if prop == 'C14' or rng.random() < 0.3 else [])
+        pool = ['v', 'l', 's', 'k', 'g', 'n', 'sel', 'esel'] + (['r'] if prop == 'C14' or rng.random() < 0.3 else [])
         if prop == 'C14':
             used = ['k', 'v'] + [p for p in pool if p not in ('k', 'v') and rng.random() < 0.4]
         else:
@@ -111,7 +112,7 @@ class ClassWorld:
         ops = []
         table = {
             'C12': [('new', 4), ('iset', 5), ('cset', 4), ('imut', 3), ('cmut', 2), ('iattr', 2), ('cattr', 1.5), ('iobj', 1.5), ('cobj', 1),
-                    ('touch', 1.5), ('lsp', 0.5)],
+                    ('touch', 1.5), ('lsp', 0.5), ('newdyn', 1.2)],
             'C13': [('new', 3), ('iset', 3), ('cset', 5), ('addp', 3), ('lsp', 3), ('getp', 2), ('inp', 1), ('vals', 2), ('repr', 1), ('touch', 1),
                     ('watchnew', 1), ('cparam', 2.5)],
             'C14': [('new', 3), ('newk', 2), ('kset', 5), ('kupdate', 2), ('cset', 3), ('rset', 2), ('ec_open', 3), ('ec_close', 3), ('ec_raise', 1.5),
@@ -238,6 +239,8 @@ class _Run:
             return self.counter % 10
         if p == 'sel':
             return 'o1'
+        if p == 'esel':
+            return None
         return self.fresh_int()
 
     def describe(self, v):
@@ -263,6 +266,9 @@ class _Run:
                     kw['objects'] = list(SEL_OBJECTS)
                     ns[p] = param.Selector(default=d, **kw)
                     attrs = {'objects': list(SEL_OBJECTS), 'doc': None}
+                elif p == 'esel':
+                    ns[p] = param.Selector(objects=[], **kw)
+                    attrs = {'objects': [], 'doc': None}
                 elif p == 'n':
                     ns[p] = param.Number(default=d, **kw)
                     attrs = {'bounds': (0, 10), 'doc': None}
@@ -302,11 +308,20 @@ class _Run:
         return None
 
     # -- instance creation ---------------------------------------------------------------------------------
-    def new_instance(self, ci, kwnames):
+    def new_instance(self, ci, kwnames, dynamic=False):
         if len(self.insts) >= 5:
             return
         kw, given = {}, {}
         for p in kwnames:
+            if p == 'esel':
+                continue
+            if p == 'n' and dynamic and 'n' in self.visible(ci):
+                # a callable handed to a Number: this instance produces its value dynamically, nothing else changes
+                const = (self.counter % 7) + 1
+                self.counter += 1
+                kw[p] = (lambda c=const: c)
+                given[p] = const
+                continue
             if p in self.visible(ci) and p != 'r':
                 v = {'n': (self.counter % 7) + 1, 'sel': 'o2'}.get(p)
                 if v is None:
@@ -500,8 +515,10 @@ class _Run:
         param = self.param
         if k in ('new', 'newk'):
             self.new_instance(ci, op.get('kw', []) + (['k'] if k == 'newk' else []))
+        elif k == 'newdyn':
+            self.new_instance(ci, ['n'], dynamic=True)
         elif k == 'cset':
-            if p not in self.visible(ci):
+            if p not in self.visible(ci) or p == 'esel':
                 return
             kk, pm = self.gov(ci, p)
             if p == 'r':
@@ -517,8 +534,8 @@ class _Run:
                 v = self.new_list() if KINDS[p][1] else self.fresh_int()
             setattr(self.classes[ci], p, v)
             if kk != ci:
-                # copy-on-write: K{ci} now owns a (shallow) copy of the inherited Parameter
-                self.own[ci][p] = pm.clone(deep_attrs=False)
+                # copy-on-write: K{ci} now owns a copy of the inherited Parameter, with its own mutable attributes
+                self.own[ci][p] = pm.clone(deep_attrs=True)
                 pm = self.own[ci][p]
                 self.probe['inherit_cset'] = True
                 if ci in self.cache_read or any(c in self.cache_read for c in range(nc) if ci in self.mro[c]):
@@ -530,7 +547,7 @@ class _Run:
             pm.default = v
         elif k == 'iset' and has_inst:
             m = self.im[i]
-            if p not in self.visible(m['c']) or p in ('k', 'r'):
+            if p not in self.visible(m['c']) or p in ('k', 'r', 'esel'):
                 return
             v = {'n': (self.counter % 9) + 1, 'sel': ['o1', 'o2', 'o3'][self.counter % 3]}.get(p)
             self.counter += 1
@@ -604,13 +621,15 @@ class _Run:
                     m['copies'][q].attrs[a] = ANY
         elif k == 'iobj' and has_inst:
             m = self.im[i]
-            if 'sel' not in self.visible(m['c']):
+            cand = [q for q in ('sel', 'esel') if q in self.visible(m['c'])]
+            if not cand:
                 return
             self.counter += 1
-            self.ensure_copy(i, 'sel')
-            self.insts[i].param['sel'].objects.append(f"x{self.counter}")
-            if m['copies']['sel'].attrs['objects'] is not ANY:
-                m['copies']['sel'].attrs['objects'].append(f"x{self.counter}")
+            q = cand[self.counter % len(cand)]
+            self.ensure_copy(i, q)
+            self.insts[i].param[q].objects.append(f"x{self.counter}")
+            if m['copies'][q].attrs['objects'] is not ANY:
+                m['copies'][q].attrs['objects'].append(f"x{self.counter}")
             self.probe['mut'] = True
         elif k == 'cobj':
             if 'sel' not in self.visible(ci):
@@ -807,10 +826,16 @@ class _Run:
                 self.viol('C13.exception', f"at the end: observing the objects raised {type(e).__name__}: {str(e)[:200]}")
         # leave every context, then the flags must be back
         if prop == 'C14':
-            while self.ec:
-                cm, _ = self.ec.pop()
-                cm.__exit__(None, None, None)
-            self.check_c14('at the end')
+            try:
+                while self.ec:
+                    cm, _ = self.ec.pop()
+                    cm.__exit__(None, None, None)
+                self.step = len(self.case['ops']) + 1
+                self.check_c14('at the end')
+            except _Stop:
+                raise
+            except Exception as e:      # noqa
+                self.viol('C14.exception', f"leaving the remaining edit_constant blocks raised {type(e).__name__}: {str(e)[:200]}")
         out.states = tuple(states)
         pr = self.probe
         sk = ','.join(op['op'] for op in self.case['ops'])
